@@ -205,6 +205,9 @@ def _reuse(record, root):
         cfg["max_rank"] = 2
     if record["engine"] == "xl_damp":
         cfg["damp"] = 20.0
+    if record["engine"] in ("exc_xl", "xl_esmd"):
+        cfg.update(n_states=2, active_state=1 + (record["seed"] % 2))
+        cfg["out"]["h5"]["transition_density_matrices"] = 1
     opts = {"io_seam": False}
     ref, run = os.path.join(root, "ref"), os.path.join(root, "run")
     os.makedirs(ref)
@@ -421,7 +424,7 @@ class C09(core.Check):
                     rec = {"i": i, "layer": "restart", "engine": eng, "k": k, "phase": phase, "crash": rng.choice(["soft", "hard"]), "seed": rng.randrange(1 << 20)}
                     recs.append(rec)
                     i += 1
-        for eng in ("xl", "ksa", "xl_damp"):
+        for eng in ("xl", "ksa", "xl_damp", "exc_xl", "xl_esmd"):
             for k in range(3, 10):
                 recs.append({"i": i, "layer": "reuse", "engine": eng, "k": k, "batch": rng.choice([["h2o"], ["h2o", "h2"], ["nh3"]]), "pre_steps": rng.randint(1, 2 * k + 3), "seed": rng.randrange(1 << 20)})
                 i += 1
